@@ -36,6 +36,8 @@ def scenarios(rng, tier):
       'reset_quick_then_topo': [discover(M, gen=3), qlt(M, own, 14, 0, seq=8), reset(M, tos=1), reset(M, tos=0)],
       'reset_drained_quick_topo': [discover(M, gen=3), probe(mac(76), own, mac(76), own), qlt(M, own, 14, 0, seq=8), query(M, own, seq=9), reset(mac(2), tos=1), reset(M, tos=0)],
     }
+    blocks['emit_self'] = [discover(M, gen=3), emit(M, own, [(1, 0, mac(7), own), (0, 0, own, own), (1, 0, mac(8), mac(9))], seq=5)]
+    blocks['qlt_icon_hourly'] = [discover(M, gen=3), qlt(M, own, 14, 0, seq=8), 'adv 3600001', qlt(M, own, 14, 0, seq=9), reset(M, tos=1), 'adv 4000000', qlt(M, own, 14, 0, seq=10)]
     blocks['qlt_beyond'] = [qlt(M, own, 17, 15, seq=8), qlt(M, own, 17, 16, seq=9), qlt(M, own, 17, 0xFFFF, seq=10), qlt(M, own, 19, 5, seq=11), qlt(M, own, 19, 4000, seq=12), qlt(M, own, 14, 0xFFF0, seq=13)]
     hosts = {'': dict(fname=b'a friendly name', hwid=b'hw'), '_noname': dict(fname=b'', hwid=b''), '_absent': dict(fname=None, hwid=b'')}
     variants = [(bn, fr, '') for bn, fr in blocks.items()] + [('qlt_icon_empty', blocks['qlt_icon0'], ''), ('qlt_icon_empty_walk', blocks['qlt_icon_walk'] + [reset(M)], '')]
@@ -43,7 +45,9 @@ def scenarios(rng, tier):
     for bn, fr, hv in variants:
         s.start('rep_' + bn); s.lines.append(gline(host=b'h', icon=b'' if 'empty' in bn else icon, **hosts[hv]))
         for r_ in range(60 if tier == 'quick' else 400):
-            for f in fr: s.frame(0, f)
+            for f in fr:
+                if isinstance(f, str): s.lines.append(f)
+                else: s.frame(0, f)
     N = 3000 if tier == 'quick' else 100000
     if cap and 3 * cap + 100 > N: N = min(3 * cap + 100, 100000 if tier == 'quick' else 1000000)   # the flood must outlast the cap the source declares
     s.start('flood_%d' % N); s.lines.append('cfg 0 mtu=576')
